@@ -864,10 +864,11 @@ Definition ts_parts_variant (tag content : str) (v : ts_variant) : list c15_part
   | TVUnit docs wire =>
     [CPcode nl; CPdoc false 1 docs;
      CPcode ([ch_tab] ++ lit "| { " ++ tag ++ lit ": " ++ debug_str wire ++ lit ", " ++ content ++ lit "?: undefined }")]
-  | TVTuple docs wire ty opt =>
+  | TVTuple docs wire ty opt nullu =>
     [CPcode nl; CPdoc false 1 docs;
      CPcode ([ch_tab] ++ lit "| { " ++ tag ++ lit ": " ++ debug_str wire ++ lit ", " ++
-             content ++ (if opt then lit "?" else []) ++ lit ": " ++ ts_show ty ++ lit " }")]
+             content ++ (if opt then lit "?" else []) ++ lit ": " ++ ts_show ty ++
+             (if nullu then lit " | null" else []) ++ lit " }")]
   | TVStruct docs wire ms =>
     [CPcode nl; CPdoc false 1 docs;
      CPcode ([ch_tab] ++ lit "| { " ++ tag ++ lit ": " ++ debug_str wire ++ lit ", " ++ content ++ lit ": {" ++ nl)] ++
@@ -879,9 +880,10 @@ Definition ts_parts_decl (d : ts_decl) : list c15_part :=
   | TSInterface docs name gs ms =>
     [CPdoc false 0 docs; CPcode (lit "export interface " ++ name ++ generics_suffix gs ++ lit " {" ++ nl)] ++
     flat_map ts_parts_member ms ++ [CPcode (lit "}" ++ nl ++ nl)]
-  | TSAlias docs name gs ty undef =>
+  | TSAlias docs name gs ty undef nullu =>
     [CPdoc false 0 docs;
      CPcode (lit "export type " ++ name ++ generics_suffix gs ++ lit " = " ++ ts_show ty ++
+             (if nullu then lit " | null" else []) ++
              (if undef then lit " | undefined" else []) ++ lit ";" ++ nl ++ nl)]
   | TSConst name ty value =>
     [CPcode (lit "export const " ++ name ++ lit ": " ++ ts_show ty ++ lit " = " ++ value ++ lit ";" ++ nl)]
@@ -914,14 +916,14 @@ Proof. destruct p as [s|b i ds]; [reflexivity|]. cbn [c15_part_safe]. apply c15_
 Definition ts_member_docs (m : ts_member) : list str := tm_docs m.
 Definition ts_variant_docs (v : ts_variant) : list str :=
   match v with
-  | TVUnit docs _ | TVTuple docs _ _ _ => docs
+  | TVUnit docs _ | TVTuple docs _ _ _ _ => docs
   | TVStruct docs _ ms => docs ++ flat_map ts_member_docs ms
   end.
 (* the doc strings of a declaration, in print order *)
 Definition ts_decl_docs (d : ts_decl) : list str :=
   match d with
   | TSInterface docs _ _ ms => docs ++ flat_map ts_member_docs ms
-  | TSAlias docs _ _ _ _ => docs
+  | TSAlias docs _ _ _ _ _ => docs
   | TSConst _ _ _ => []
   | TSUnitEnum docs _ _ vs => docs ++ flat_map (fun v => fst (fst v)) vs
   | TSUnion docs _ _ _ _ vs => docs ++ flat_map ts_variant_docs vs
@@ -940,7 +942,7 @@ Qed.
 Lemma ts_variant_text tag content v :
   flat_map ts_part_text (ts_parts_variant tag content v) = ts_render_variant tag content v.
 Proof.
-  destruct v as [docs wire|docs wire ty opt|docs wire ms]; cbn [ts_parts_variant ts_render_variant].
+  destruct v as [docs wire|docs wire ty opt nullu|docs wire ms]; cbn [ts_parts_variant ts_render_variant].
   - cbn [flat_map ts_part_text]. now rewrite app_nil_r.
   - cbn [flat_map ts_part_text]. now rewrite app_nil_r.
   - rewrite !flat_map_app, ts_members_text. cbn [flat_map ts_part_text]. rewrite app_nil_r.
@@ -950,7 +952,7 @@ Qed.
 Theorem ts_decl_parts_text d : text_of (c15_file_pieces C15ts (ts_parts_decl d)) = ts_render_decl d.
 Proof.
   rewrite ts_file_text.
-  destruct d as [docs name gs ms|docs name gs ty undef|name ty value|docs name gs vs|docs name gs tag content vs];
+  destruct d as [docs name gs ms|docs name gs ty undef nullu|name ty value|docs name gs vs|docs name gs tag content vs];
     cbn [ts_parts_decl ts_render_decl].
   - rewrite !flat_map_app, ts_members_text. cbn [flat_map ts_part_text]. rewrite app_nil_r. now rewrite <- ?app_assoc.
   - cbn [flat_map ts_part_text]. now rewrite app_nil_r.
@@ -971,7 +973,7 @@ Qed.
 Theorem ts_decl_parts_docs d : docs_of (c15_file_pieces C15ts (ts_parts_decl d)) = map c15_esc_ts (ts_decl_docs d).
 Proof.
   rewrite c15_file_docs_ts. f_equal.
-  destruct d as [docs name gs ms|docs name gs ty undef|name ty value|docs name gs vs|docs name gs tag content vs];
+  destruct d as [docs name gs ms|docs name gs ty undef nullu|name ty value|docs name gs vs|docs name gs tag content vs];
     cbn [ts_parts_decl ts_decl_docs].
   - rewrite !flat_map_app, ts_members_docs. cbn. now rewrite ?app_nil_r.
   - cbn. now rewrite app_nil_r.
@@ -979,7 +981,7 @@ Proof.
   - rewrite !flat_map_app, flat_map_flat_map. cbn [flat_map c15_part_docs app]. rewrite ?app_nil_r. f_equal.
     apply flat_map_ext. intros [[vdocs case] wire]. cbn. now rewrite app_nil_r.
   - rewrite !flat_map_app, flat_map_flat_map. cbn [flat_map c15_part_docs app]. rewrite ?app_nil_r. f_equal.
-    apply flat_map_ext. intros v. destruct v as [vd w|vd w ty opt|vd w ms]; cbn [ts_parts_variant ts_variant_docs].
+    apply flat_map_ext. intros v. destruct v as [vd w|vd w ty opt nullu|vd w ms]; cbn [ts_parts_variant ts_variant_docs].
     + cbn. now rewrite app_nil_r.
     + cbn. now rewrite app_nil_r.
     + rewrite !flat_map_app, ts_members_docs. cbn. now rewrite ?app_nil_r.
